@@ -400,32 +400,33 @@ def _unwrap_idiom(body):
             ok2 = ok2 and sized
         return (ok1 and ok2), "form A: single-branch returns %d value(s), list-branch sized by len(contexts): %s" % (
             len(singles), ok2)
-    # form B: size = 1 if contexts is None else len(contexts) ... if size == 1: return X[0] else: return X
-    sizes = [s for s in body if _is_size_def(s)]
-    if sizes and isinstance(body[-1], ast.If) and ast.unparse(body[-1].test) == "%s == 1" % ast.unparse(
-            sizes[0].targets[0]):
-        size = ast.unparse(sizes[0].targets[0])
+    # form B: with size = 1 if contexts is None else len(contexts):  if size == 1: return X[0] else: return X
+    # (the analysed copy has the temporary `size` inlined; an explicit `size = ...` is accepted as well)
+    from .c15 import _inline
+    fn_like = ast.Module(body=list(body), type_ignores=[])
+    SIZE = "1 if contexts is None else len(contexts)"
+    if isinstance(body[-1], ast.If):
         iff = body[-1]
-        r1 = iff.body[0] if iff.body and isinstance(iff.body[0], ast.Return) else None
-        r2 = iff.orelse[0] if iff.orelse and isinstance(iff.orelse[0], ast.Return) else None
-        if r1 is None or r2 is None:
-            return False, "form B without two returns"
-        lst = ast.unparse(r2.value)
-        ok = ast.unparse(r1.value) == "%s[0]" % lst
-        # the list has `size` elements
-        defs = [s.value for s in body if isinstance(s, ast.Assign) and ast.unparse(s.targets[0]) == lst]
-        sized = False
-        if defs and isinstance(defs[-1], ast.ListComp):
-            it = defs[-1].generators[0].iter
-            its = ast.unparse(it)
-            if its == "range(%s)" % size:
-                sized = True
-            elif isinstance(it, ast.Name):
-                srcs = [s.value for s in body if isinstance(s, ast.Assign) and ast.unparse(s.targets[0]) == it.id]
-                if srcs:
-                    s0 = ast.unparse(srcs[-1])
-                    sized = ("(%s, " % size in s0) or (", %s)" % size in s0) or s0.endswith(", %s)" % size)
-        return (ok and sized), "form B: single = list[0]: %s; list has `%s` elements: %s" % (ok, size, sized)
+        test = " ".join(ast.unparse(_inline(fn_like, iff.test)).split())
+        if test in ("(%s) == 1" % SIZE, "1 == (%s)" % SIZE):
+            r1 = iff.body[0] if iff.body and isinstance(iff.body[0], ast.Return) else None
+            r2 = iff.orelse[0] if iff.orelse and isinstance(iff.orelse[0], ast.Return) else None
+            if r1 is None or r2 is None:
+                return False, "form B without two returns"
+            lst = ast.unparse(r2.value)
+            ok = ast.unparse(r1.value) == "%s[0]" % lst
+            # the list has `size` elements
+            defs = [s.value for s in body if isinstance(s, ast.Assign) and ast.unparse(s.targets[0]) == lst]
+            sized = False
+            if defs and isinstance(defs[-1], ast.ListComp):
+                it = defs[-1].generators[0].iter
+                its = " ".join(ast.unparse(_inline(fn_like, it)).split())
+                if its == "range(%s)" % SIZE:
+                    sized = True
+                else:
+                    sized = (", %s)" % SIZE) in its or ("(%s, " % SIZE) in its or (", (%s))" % SIZE) in its or \
+                        ("size=%s" % SIZE) in its
+            return (ok and sized), "form B: single = list[0]: %s; list has `size` elements: %s" % (ok, sized)
     return None, "neither `if contexts is None or len(contexts) == 1` nor `size = ...; if size == 1`"
 
 
@@ -445,40 +446,30 @@ class MustAssign(PathWalker):
 
 
 def check_row_outputs(ctx, F):
-    """every _predict_contexts allocates one slot per row, assigns slot[index] on every path of its row loop and
-    returns the list (names of locals are free)."""
-    from .pattern import find, match
+    """every _predict_contexts produces exactly one result per row, in row order: a list pre-allocated with one slot
+    per row and assigned at [index] once on every path of the row loop, or an empty list appended to once on every
+    path; the list is what the function returns (names of locals are free)."""
+    from .common import row_loop_info
     prog = ctx.prog
     n = 0
     for f in prog.all_functions():
         if f.name != "_predict_contexts" or f.is_trivial():
             continue
-        loops = [s for s in f.node.body if isinstance(s, ast.For)]
-        alloc, ab = find("_P_ = [None] * len(contexts)", f.node)
-        if not loops or alloc is None:
+        info = row_loop_info(f)
+        if info is None or info.out is None:
             ctx.undecided("R8.5", "%s: row loop / result list not recognised" % f.qualname, f.node, f,
                           construct="def " + f.qualname)
             continue
-        P = ab["_P_"]
-        loop = loops[-1]
-        idx = ast.unparse(loop.target.elts[0]) if isinstance(loop.target, ast.Tuple) else None
-
-        def must(stmts):
-            for s in stmts:
-                if isinstance(s, ast.Assign) and isinstance(s.targets[0], ast.Subscript) and \
-                        ast.unparse(s.targets[0].value) == P and ast.unparse(s.targets[0].slice) == idx:
-                    return True
-                if isinstance(s, ast.If) and must(s.body) and must(s.orelse):
-                    return True
-            return False
         n += 1
-        ctx.check(must(loop.body), "R8.5", "%s assigns the row's result slot on every path of the row loop" %
-                  f.qualname, loop, f, construct="row loop of " + f.qualname)
+        ctx.check(info.once, "R8.5", "%s writes the row's result exactly once on every path of the row loop" %
+                  f.qualname, info.loop, f, "result list `%s` (%s form)" % (info.out, info.mode),
+                  construct="row loop of " + f.qualname)
         rets = _ret_exprs(f)
-        ctx.check(len(rets) == 1 and ast.unparse(rets[0].value) == P, "R8.5",
+        ctx.check(len(rets) == 1 and ast.unparse(rets[0].value) == info.out, "R8.5",
                   "%s returns the per-row list" % f.qualname, rets[0] if rets else f.node, f,
                   construct="return of " + f.qualname)
-        ctx.ok("R8.5", "%s allocates one slot per row" % f.qualname, alloc, f, construct="allocation in " + f.qualname)
+        ctx.ok("R8.5", "%s builds one result per row" % f.qualname, info.alloc, f,
+               construct="allocation in " + f.qualname)
     ctx.floor("R8.5", "_predict_contexts implementations", n, 8)
 
 
